@@ -393,7 +393,7 @@ def oracle_placement(inp, ptx, res, bpt_s):
             if f["t"] != "F":
                 continue
             a_, b_, o = f["start"] + M, f["end"] - M, f["strand"]
-            aff, dests = set(), set()
+            aff, dests, outpos = set(), set(), []
             for (sn, lo, hi, d, o_lo, dest) in spans:
                 if sn != f["name"]:
                     continue
@@ -401,6 +401,8 @@ def oracle_placement(inp, ptx, res, bpt_s):
                 if x > y:
                     continue
                 ox = o_lo + (x - lo) if d == 1 else o_lo - (x - lo)
+                oy = o_lo + (y - lo) if d == 1 else o_lo - (y - lo)
+                outpos += [ox, oy]          # where the contig bases of the core actually sit (terminal gaps are not output)
                 aff.add((d, ox - d * x)); dests.add(dest)
                 if d != o:
                     errs.append(f"orientation of core of piece {f['name']}:{f['start']}-{f['end']} wrong in {dest}")
@@ -409,8 +411,7 @@ def oracle_placement(inp, ptx, res, bpt_s):
             elif len(aff) > 1:
                 errs.append(f"core of piece {f['name']}:{f['start']}-{f['end']} not one collinear run")
             if aff and len(dests) == 1:
-                d, c = next(iter(aff))
-                plist.append((next(iter(dests)), min(c + d * a_, c + d * b_), f"{f['name']}:{f['start']}-{f['end']}"))
+                plist.append((next(iter(dests)), min(outpos), f"{f['name']}:{f['start']}-{f['end']}"))
         bydest = {}
         for dest, pos, s in plist:
             bydest.setdefault(dest, []).append((pos, s))
@@ -802,6 +803,16 @@ def oracle_names(inp, ptx, res, prefix="SUPER_", single_hap=True, bpt_s=None):
                 expn = base if n == 1 else f"{base}_unloc_{n - 1}"
                 if prev != expn:
                     errs.append(f"unloc {s['name']} does not directly follow {expn} (follows {prev})")
+        # unlocs of one chromosome are numbered 1..m without holes
+        ul = {}
+        for s in scs:
+            if "_unloc_" in s["name"] and s["rank"] in (1, 2):
+                base, n_ = s["name"].rsplit("_unloc_", 1)
+                if n_.isdigit():
+                    ul.setdefault(base, []).append(int(n_))
+        for base, ns in ul.items():
+            if sorted(ns) != list(range(1, len(ns) + 1)):
+                errs.append(f"unlocs of {base} not numbered 1..m: {sorted(ns)}")
         for s in scs:
             if s["rank"] == 2 and not s["name"].startswith(prefix):
                 errs.append(f"name-tagged scaffold {s['name']} lacks the prefix")
@@ -829,15 +840,25 @@ def make_case(rng, kind, **kw):
     bpt = kw.get("bpt") or rng.choice(BPTS)
     revp = kw.get("revp", rng.choice([0.0, 0.25, 0.35]))
     if kind == "twohap":
-        # homologous pairs: Pretext scaffolds alternate between two haplotypes; the first one seen need not be the
-        # alphabetically first; chromosome sizes are independent between the haplotypes
-        haps = rng.choice([["Hap2", "Hap1"], ["Hap1", "Hap2"], ["hapB", "hapA"], ["Mat", "Pat"], ["Pat", "Mat"]])
+        # homologous groups: Pretext scaffolds of two or three haplotypes; the first one seen need not be the alphabetically
+        # first; chromosome sizes are independent between the haplotypes; later groups may list the haplotypes in another
+        # order (3 haplotypes) or lack a homologue (tagged Singleton)
+        haps = rng.choice([["Hap2", "Hap1"], ["Hap1", "Hap2"], ["hapB", "hapA"], ["Mat", "Pat"], ["Pat", "Mat"],
+                           ["Hap1", "Hap2", "Hap3"], ["Hap3", "Hap1", "Hap2"]])
         ng = rng.randint(2, 4)
         inp, ptx, oid = [], [], 0
         beta = Fraction(bpt)
         unit = max(40, math.ceil(beta) * 8)
         for g in range(ng):
-            for h in haps:
+            order = list(haps)
+            singleton = False
+            if g > 0:
+                if len(haps) == 3 and rng.random() < 0.6:
+                    rest = order[1:]; rng.shuffle(rest)
+                    order = [order[0]] + rest if rng.random() < 0.5 else rng.sample(order, 3)
+                elif len(haps) == 2 and rng.random() < 0.3:
+                    order = [order[0]]; singleton = True
+            for h in order:
                 n = len(inp) + 1
                 ln = unit * rng.randint(1, 9) + rng.randint(0, 5)
                 rows = [conv.jfrag(oid, f"c{oid+1}", 1, ln, rng.choice([1, -1]))]; oid += 1
@@ -845,8 +866,36 @@ def make_case(rng, kind, **kw):
                     rows += [conv.jgap(200), conv.jfrag(oid, f"c{oid+1}", 1, unit * rng.randint(1, 3), 1)]; oid += 1
                 inp.append(conv.jscaffold(f"s{n}", rows))
                 L = slen(rows); T = math.floor(L / beta)
-                ptx.append(conv.jscaffold(f"Scaffold_{n}", [conv.jfrag(0, f"s{n}", 1, math.floor(T * beta), rng.choice([1, -1]), ["Painted", h])]))
+                tags = ["Painted", h] + (["Singleton"] if singleton else [])
+                ptx.append(conv.jscaffold(f"Scaffold_{n}", [conv.jfrag(0, f"s{n}", 1, math.floor(T * beta), rng.choice([1, -1]), tags)]))
         return {"kind": "tagged2", "input": inp, "ptx": ptx, "bpt": bpt}
+    if kind == "tie":
+        # a sub-texel contig cut exactly in the middle: both pieces overlap it by the same number of bases (< 1 texel)
+        beta = Fraction(bpt)
+        w = math.floor(beta) if beta >= 8 else 10
+        bpt = str(w)
+        k = rng.randint(3, 8)
+        half = rng.randint(1, max(1, w // 2 - 1))
+        c1 = k * w - half
+        rows = [conv.jfrag(0, "c1", 1, c1, rng.choice([1, -1])), conv.jfrag(1, "c2", 1, 2 * half, rng.choice([1, -1])),
+                conv.jfrag(2, "c3", 1, w * rng.randint(3, 7) + rng.randint(0, w - 1), 1)]
+        if rng.random() < 0.5:
+            rows.insert(1, conv.jgap(0)) if False else None
+        inp = [conv.jscaffold("s1", rows)]
+        if rng.random() < 0.5:
+            inp.append(conv.jscaffold("s2", [conv.jfrag(3, "c4", 1, w * rng.randint(2, 6), 1)]))
+        L = slen(rows); T = math.floor(L / w)
+        painted = ["Painted"] if rng.random() < 0.6 else []
+        p1 = conv.jfrag(0, "s1", 1, k * w, rng.choice([1, -1]), list(painted))
+        p2 = conv.jfrag(0, "s1", k * w + 1, T * w, rng.choice([1, -1]), list(painted))
+        order = [p1, p2] if rng.random() < 0.5 else [p2, p1]
+        if rng.random() < 0.5:
+            ptx = [conv.jscaffold("Scaffold_1", [order[0], conv.jgap(100), order[1]])]
+        else:
+            ptx = [conv.jscaffold("Scaffold_1", [order[0]]), conv.jscaffold("Scaffold_2", [order[1]])]
+        if len(inp) > 1:
+            ptx.append(conv.jscaffold("Scaffold_3", [conv.jfrag(0, "s2", 1, (slen(inp[1]["rows"]) // w) * w, 1, [])]))
+        return {"kind": "script", "input": inp, "ptx": ptx, "bpt": bpt}
     if kind in ("null", "nullp"):
         inp = rand_input(rng, revp=revp, hap_names=kw.get("hap_names", False))
         # precondition of C08: last contig of each scaffold at least one texel long → enlarge it if needed
